@@ -212,10 +212,12 @@ class DefaultDeploymentManager(DeploymentManager):
             for name, deps in list(
                 (k, v) for k, v in self.dependency_graph.items() if k != deployment_name
             ):
-                deps.discard(deployment_name)
-                # If there are no more dependencies, undeploy the environment
-                if len(deps) == 0:
-                    await self.undeploy(name)
+                # Only a deployment that has really been removed releases the others
+                if deployment_name in deps and deployment_name not in self.config_map:
+                    deps.discard(deployment_name)
+                    # If there are no more dependencies, undeploy the environment
+                    if len(deps) == 0:
+                        await self.undeploy(name)
 
     async def undeploy_all(self) -> None:
         undeployments = []
